@@ -231,6 +231,24 @@ def gen(rng, tier, mult=1):
                     res = {"kind": "ret", "status": 200, "headers": [[H.hx("Content-Length"), H.hx("2")]], "body": "6f6b"}
                     yield H.exchange_case([{"accept": "yes", "result": res, "read_body": False}],
                                           [[rq], [H.liveness_request(i)]], meta={"kind": "unread-request-body"})
+    # 2c. a client that stops reading in the middle of a multi-megabyte body and resumes later gets the whole body
+    for pause, size in (((6, 12 << 20),) if tier == "quick" else ((6, 12 << 20), (35, 12 << 20), (12, 24 << 20))):
+        i += 1
+        res = {"kind": "ret", "status": 200, "headers": [[H.hx("Content-Length"), H.hx(str(size))]], "body": None,
+               "body_gen": {"len": size, "mul": 7, "add": 3, "off": 0}}
+        rq = H.gen_request(rng, method="GET")
+        rq["body"] = None
+        rq["slow_read"] = {"rcvbuf": 65536, "pause_s": pause}
+        yield H.exchange_case([{"accept": "yes", "result": res}], [[rq], [H.liveness_request(i)]],
+                              meta={"kind": "slow-reader"})
+    # 2d. many connections that are reset before their request head is complete (port scans, health checks, clients
+    #     that lose power), then ordinary requests: every one of them is answered
+    for k in ((120,) if tier == "quick" else (120, 600, 2000)):
+        i += 1
+        ab = {"raw": b"GET /x HT".hex(), "abort": True, "expect": "any", "is_head": False}
+        phases = [[dict(ab) for _ in range(20)] for _ in range(k // 20)]
+        phases += [[H.liveness_request(i)], [H.gen_request(rng, method="GET") for _ in range(3)]]
+        yield H.exchange_case([{"accept": "yes", "result": dict(H.SMALL_RESULT)}], phases, meta={"kind": "abort-storm"})
     # 3. random combinations
     n = (350 if tier == "quick" else 9000) * mult
     for _ in range(n):
